@@ -31,8 +31,200 @@ fn chips_of(a: &Action) -> i32 {
     }
 }
 
+
+/// the utility MCCFR learns from: the real `Node::payoff` of a terminal node holding this game.
+/// The node is planted in a real `Tree` (`Tree::empty` + `Tree::plant`); should planting panic
+/// (bucket realisation on an odd state) the node is made directly over a petgraph `DiGraph<Data, Edge>`.
+fn node_payoffs(g: &Game) -> Option<[f32; 2]> {
+    use robopoker::clustering::abstraction::Abstraction;
+    use robopoker::cards::street::Street;
+    use robopoker::mccfr::{data::Data, edge::Edge, node::Node, player::Player, tree::Tree};
+    let gg = *g;
+    let via_tree = catch(move || {
+        let mut tree = Tree::empty(Player(Turn::Choice(0)));
+        let node = tree.plant(Data::from((gg, Abstraction::from((Street::Pref, 0usize)))));
+        [node.payoff(&Player(Turn::Choice(0))), node.payoff(&Player(Turn::Choice(1)))]
+    });
+    if via_tree.is_some() {
+        return via_tree;
+    }
+    catch(move || {
+        let mut graph: petgraph::graph::DiGraph<Data, Edge> = petgraph::graph::DiGraph::new();
+        let i = graph.add_node(Data::from((gg, Abstraction::from((Street::Pref, 0usize)))));
+        let node = Node::from((i, &graph));
+        [node.payoff(&Player(Turn::Choice(0))), node.payoff(&Player(Turn::Choice(1)))]
+    })
+}
+
+/// `Node::payoff` must be the net result of the hand: reward minus own contribution (own
+/// ledger), and the two payoffs must cancel
+fn check_node_payoff(run: &mut Run, name: &str, g: &Game, rewards: [i32; 2], paid: [i32; 2]) {
+    run.spec_checked += 1;
+    match node_payoffs(g) {
+        None => run.fail("node-payoff-panics", name, "two utilities", "panic"),
+        Some(u) => {
+            let want = [(rewards[0] - paid[0]) as f32, (rewards[1] - paid[1]) as f32];
+            if u != want || u[0] + u[1] != 0.0 {
+                run.fail("node-payoff", name, &format!("Node::payoff = reward - contribution = {want:?}, zero-sum"), &format!("{u:?} (sum {})", u[0] + u[1]));
+            }
+        }
+    }
+    run.count("node-payoff");
+}
+
+thread_local! {
+    /// betting states whose accepted amounts have been swept already, and the budget left
+    static SWEPT: std::cell::RefCell<(std::collections::HashSet<(i16, [(u8, i16, i16, i16); 2], usize, u8)>, usize)> =
+        std::cell::RefCell::new((Default::default(), 0));
+}
+
+/// chip invariants of a state against an own ledger
+fn chips_ok(g: &Game, paid: [i32; 2]) -> bool {
+    let s = g.verif_seats();
+    let mut ok = g.pot() as i32 == paid[0] + paid[1];
+    for p in 0..2 {
+        ok &= s[p].1 >= 0 && s[p].1 as i32 == STACK - paid[p] && s[p].3 as i32 == paid[p] && s[p].2 >= 0 && s[p].2 <= s[p].3;
+        ok &= (s[p].1 == 0) == (s[p].0 == State::Shoving) || s[p].0 == State::Folding;
+    }
+    ok
+}
+fn chips_show(g: &Game) -> String {
+    let s = g.verif_seats();
+    format!("pot {} stacks [{}, {}] spent [{}, {}] stakes [{}, {}]", g.pot(), s[0].1, s[1].1, s[0].3, s[1].3, s[0].2, s[1].2)
+}
+
+/// play a line to the end with checks / calls (all-in or fold when facing an all-in) and the
+/// deal's street cards; every engine call under `catch`
+fn finish_passively(rng: &mut Rng, deal: &Deal, start: &Game) -> (Vec<Action>, Vec<Game>) {
+    let full = bits(hand(robopoker::cards::hand::Hand::mask()));
+    let (mut acts, mut states, mut g) = (vec![], vec![], *start);
+    for _ in 0..40 {
+        let a = match try_turn(&g) {
+            Some(Turn::Chance) => {
+                let in_play = board_bits(&g) | deal.h0 | deal.h1;
+                let st = { let gg = g; catch(move || gg.street() as usize).unwrap_or(0).min(2) };
+                let forced = deal.streets[st];
+                if forced & in_play == 0 { Action::Draw(hand(forced)) } else { Action::Draw(hand(rng.cards(if st == 0 { 3 } else { 1 }, full & !in_play))) }
+            }
+            Some(Turn::Choice(_)) => {
+                let legal = try_legal(&g).unwrap_or_default();
+                let pick = |k: fn(&Action) -> bool| legal.iter().find(|a| k(a)).copied();
+                match pick(|a| matches!(a, Action::Check)).or(pick(|a| matches!(a, Action::Call(_)))) {
+                    Some(a) => a,
+                    None => match (pick(|a| matches!(a, Action::Shove(_))), pick(|a| matches!(a, Action::Fold))) {
+                        (Some(s), Some(f)) => if rng.chance(1, 2) { s } else { f },
+                        (Some(s), None) => s,
+                        (None, Some(f)) => f,
+                        _ => break,
+                    },
+                }
+            }
+            _ => break,
+        };
+        match try_apply(&g, a) {
+            Some(ch) => { g = ch; acts.push(a); states.push(g); }
+            None => break,
+        }
+    }
+    (acts, states)
+}
+
+/// The property quantifies over every action history the engine ACCEPTS, not only over the
+/// actions it offers: at this state ask `is_allowed` for Raise/Call/Shove/Blind with every integer
+/// amount -1..=STACK+stake+2, apply each accepted one and check the chip invariants on the child
+/// against the ledger; the smallest and the largest accepted amount of each kind are played to the
+/// end of the hand (settlement must be zero-sum) and go to the model as a `game` line.
+fn sweep_accepted(run: &mut Run, rng: &mut Rng, deal: &Deal, hist: &[Action], g: &Game, paid: [i32; 2]) {
+    let actor = match try_turn(g) { Some(Turn::Choice(p)) => Some(p.min(1)), _ => None };
+    let seats = g.verif_seats();
+    let top = STACK as i16 + seats[0].2.max(seats[1].2) + 2;
+    let mk: [(&str, fn(i16) -> Action); 4] = [("raise", Action::Raise), ("call", Action::Call), ("shove", Action::Shove), ("blind", Action::Blind)];
+    for (kind, make) in mk {
+        let mut accepted: Vec<i16> = vec![];
+        for x in -1..=top {
+            let a = make(x);
+            run.evaluations += 1;
+            match try_allowed(g, &a) {
+                Some(true) => accepted.push(x),
+                Some(false) => {}
+                None => run.fail("is_allowed-panics", &format!("allowed {} {} | {} | {}", deal.h0, deal.h1, hist_tok(hist), act_tok(&a)), "0/1", "panic"),
+            }
+        }
+        run.count_n(&format!("sweep:{}:{}:accepted", turn_kind(g), kind), accepted.len() as u64);
+        for (i, &x) in accepted.iter().enumerate() {
+            let a = make(x);
+            let mut h2 = hist.to_vec();
+            h2.push(a);
+            let name = format!("game {} {} | {}", deal.h0, deal.h1, hist_tok(&h2));
+            run.spec_checked += 1;
+            let child = match try_apply(g, a) {
+                Some(c) => c,
+                None => {
+                    run.fail("engine-rejects-an-amount-is_allowed-accepts", &name, "apply succeeds", "panic");
+                    continue;
+                }
+            };
+            let mut paid2 = paid;
+            match actor {
+                Some(p) => paid2[p] += x as i32,
+                None => {
+                    run.fail("chips-accepted-without-actor", &name, "rejected (nobody is to act)", &chips_show(&child));
+                    continue;
+                }
+            }
+            if !chips_ok(&child, paid2) {
+                run.fail("conservation-after-accepted-amount", &name,
+                    &format!("pot {} stacks {:?} (>= 0) spent {:?}", paid2[0] + paid2[1], [STACK - paid2[0], STACK - paid2[1]], paid2), &chips_show(&child));
+            }
+            // the extremes of every accepted range: to the end of the hand
+            if i == 0 || i == accepted.len() - 1 {
+                let (more, states) = finish_passively(rng, deal, &child);
+                h2.extend(more.iter().copied());
+                let mut all = vec![*g, child];
+                all.extend(states.iter().copied());
+                // ledger along the continuation
+                let mut p3 = paid2;
+                for k in 0..more.len() {
+                    if let Some(Turn::Choice(p)) = try_turn(&all[k + 1]) { p3[p.min(1)] += chips_of(&more[k]); }
+                    run.spec_checked += 1;
+                    if !chips_ok(&all[k + 2], p3) {
+                        let upto = hist.len() + 2 + k;
+                        run.fail("conservation-after-accepted-amount", &format!("game {} {} | {}", deal.h0, deal.h1, hist_tok(&h2[..upto])),
+                            &format!("pot {} stacks {:?} spent {:?}", p3[0] + p3[1], [STACK - p3[0], STACK - p3[1]], p3), &chips_show(&all[k + 2]));
+                        break;
+                    }
+                }
+                // correspondence: the model replays the whole line (prefix states are already compared elsewhere)
+                let mut gs = vec![root_with(deal.h0, deal.h1)];
+                let mut okk = true;
+                for a in &h2 { match try_apply(gs.last().unwrap(), *a) { Some(n) => gs.push(n), None => { okk = false; break; } } }
+                let mut txt = gs.iter().map(state_line).collect::<Vec<_>>().join(" ; ");
+                if !okk { txt.push_str(" ; panic"); }
+                run.line(&format!("game {} {} | {}", deal.h0, deal.h1, hist_tok(&h2)), &txt);
+                let last = *all.last().unwrap();
+                if try_turn(&last) == Some(Turn::Terminal) {
+                    run.spec_checked += 1;
+                    match catch(move || last.settlements().iter().map(|s| (s.reward as i32, s.pnl() as i32, s.risked as i32)).collect::<Vec<_>>()) {
+                        None => run.fail("settlements-panic", &format!("rewards {} {} | {}", deal.h0, deal.h1, hist_tok(&h2)), "rewards", "panic"),
+                        Some(v) => {
+                            check_node_payoff(run, &format!("payoff {} {} | {}", deal.h0, deal.h1, hist_tok(&h2)), &last, [v[0].0, v[1].0], p3);
+                            let pot = last.pot() as i32;
+                            if v[0].0 + v[1].0 != pot || v[0].1 + v[1].1 != 0 || v[0].0 < 0 || v[1].0 < 0 || v[0].2 != p3[0] || v[1].2 != p3[1] || pot != p3[0] + p3[1] {
+                                run.fail("payout-after-accepted-amount", &format!("rewards {} {} | {}", deal.h0, deal.h1, hist_tok(&h2)),
+                                    &format!("rewards sum to the pot {} = {:?} put in, pnl zero-sum", p3[0] + p3[1], p3), &format!("rewards [{}, {}] pnl [{}, {}] risked [{}, {}] pot {pot}", v[0].0, v[1].0, v[0].1, v[1].1, v[0].2, v[1].2));
+                            }
+                        }
+                    }
+                    run.count("sweep:played-to-the-end");
+                }
+            }
+        }
+    }
+    run.count("sweep:states");
+}
+
 /// conservation oracle along one history; returns the ledger at the end
-fn check_history(run: &mut Run, deal: &Deal, hist: &[Action], states: &[Game]) -> [i32; 2] {
+fn check_history(run: &mut Run, rng: &mut Rng, deal: &Deal, hist: &[Action], states: &[Game]) -> [i32; 2] {
     let name = |i: usize| format!("game {} {} | {}", deal.h0, deal.h1, hist_tok(&hist[..i]));
     // the freshly dealt hand: blinds are in, nothing else
     let s = states[0].verif_seats();
@@ -66,6 +258,11 @@ fn check_history(run: &mut Run, deal: &Deal, hist: &[Action], states: &[Game]) -
         }
         run.distinct(&betting_key(g));
         run.count(&format!("{}:{}", street_name(g), turn_kind(g)));
+        // every amount the engine accepts here, once per distinct betting state (within the budget)
+        let fresh = SWEPT.with(|c| { let mut c = c.borrow_mut(); if c.1 > 0 && c.0.insert(betting_key(g)) { c.1 -= 1; true } else { false } });
+        if fresh && ok {
+            sweep_accepted(run, rng, deal, &hist[..i], g, paid);
+        }
     }
     paid
 }
@@ -102,7 +299,7 @@ fn one_history(run: &mut Run, rng: &mut Rng, deals: &[Deal], h: usize) {
         run.evaluations += states.len() as u64;
         let line = states.iter().map(state_line).collect::<Vec<_>>().join(" ; ");
         run.line(&format!("game {} {} | {}", deal.h0, deal.h1, hist_tok(&hist)), &line);
-        let paid = check_history(run, deal, &hist, &states);
+        let paid = check_history(run, rng, deal, &hist, &states);
         let last = states.last().unwrap();
         let op_end = format!("game {} {} | {}", deal.h0, deal.h1, hist_tok(&hist));
         if try_turn(last) != Some(Turn::Terminal) {
@@ -162,6 +359,7 @@ fn one_history(run: &mut Run, rng: &mut Rng, deals: &[Deal], h: usize) {
             }
             Some(v) => {
                 run.line(&op, &format!("{} {} {} {}", v[0].0, v[1].0, v[0].1, v[1].1));
+                check_node_payoff(run, &format!("payoff {} {} | {}", deal.h0, deal.h1, hist_tok(&hist)), last, [v[0].0, v[1].0], paid);
                 run.spec_checked += 1;
                 let hole = |i: usize| bits(robopoker::cards::hand::Hand::from(seats[i].4));
                 let showdown = !folded[0] && !folded[1];
@@ -208,8 +406,9 @@ fn main() {
     ambient::install();
     let n_hist: usize = if a.thorough() { 600_000 } else { 80_000 };
     let deals = make_deals(&mut rng, 96);
+    SWEPT.with(|c| c.borrow_mut().1 = if a.thorough() { 400_000 } else { 9_000 });
     run.rule = format!(
-        "{n_hist} random histories of the real Game (5 play styles x legal() ∪ every raise size) over {} forced deals (crafted: seat0-wins/seat1-wins/tie, royal flush on the board / in one hand, straight flush vs straight flush, wheels, board-plays, kicker fights; + random), state compared after every action, settlements at the end of every hand; a case = one visited betting state, non-trivial always (blinds are in), distinct by (pot, seats, ticker, street)",
+        "{n_hist} random histories of the real Game (5 play styles x legal() ∪ every raise size) over {} forced deals (crafted: seat0-wins/seat1-wins/tie, royal flush on the board / in one hand, straight flush vs straight flush, wheels, board-plays, kicker fights; + random), state compared after every action, settlements at the end of every hand, and the real Node::payoff of a tree node holding the final state (= reward - own contribution, zero-sum); at the first visit of a betting state (budget 9k quick / 400k thorough) is_allowed is asked for Raise/Call/Shove/Blind with every amount -1..=STACK+stake+2, every accepted amount is applied and the chip invariants checked on the child, the extremes of each accepted range are played to the end and settled; a case = one visited betting state, non-trivial always (blinds are in), distinct by (pot, seats, ticker, street)",
         deals.len()
     );
     for h in 0..n_hist {
